@@ -374,3 +374,9 @@ Definition sample_waveforms (chans : list (option chan_cfg)) (markers : list (op
                        (map (read_view c) (fst cm), map (read_view m) (snd cm))) vs)
       end
   end.
+
+(* ProgramEntry.__init__ (round 4): `if waveforms: self._waveforms = ... _sample_waveforms(waveforms) else: OrderedDict()` — an
+   entry without waveforms holds nothing and _sample_waveforms (which asserts a non-empty list) is not called *)
+Definition entry_waveforms (chans : list (option chan_cfg)) (markers : list (option Z)) (rate : Q)
+           (wfs : list wf_obs) : outcome (list sampled) :=
+  match wfs with [] => ORet [] | _ => sample_waveforms chans markers rate wfs end.
